@@ -197,8 +197,8 @@ class StackRig:
         self.loop.call_soon(self._read, raw)
 
     def _read(self, raw):
-        if self.lost or self.protocol is None:
-            return
+        if self.lost or self.protocol is None or (self.tr is not None and self.tr.closed):
+            return                      # a closed transport delivers no more reads
         try:
             self.protocol.data_received(raw)
         except Exception as e:  # noqa - the loop would log it
